@@ -149,7 +149,9 @@ def check(ctx):
                 s, ex = summarise(p, c)
                 v = fld(s.this, comp_member)
                 zero = isinstance(v, tuple) and v[0] in ('vzeros',) or \
-                    (isinstance(v, tuple) and v[0] == 'vresize' and v[1] == T.vempty())
+                    (isinstance(v, tuple) and v[0] == 'vresize' and v[1] == T.vempty()) or \
+                    (isinstance(v, tuple) and v[0] == 'vlist' and len(v) > 1 and all(x == T.ZERO for x in v[1:])) or \
+                    (isinstance(v, tuple) and v[0] == 'vfill' and v[2] == T.ZERO)
                 if zero:
                     ctx.holds('R2.zero_initialised', fsite(c), '%s starts as zeros' % comp_member)
                 else:
